@@ -395,6 +395,8 @@ type refInterp struct {
 	crossExited     int // a ball passed a catch/3 whose goal had exited
 	crossNoMatch    int // a ball passed a catch/3 whose catcher did not unify
 	caught          int
+	caughtAfterRedo int          // a ball caught by a catch/3 whose goal had exited before and was re-entered
+	exitSeen        map[int]bool // per catch depth: its goal has exited at least once
 	peakRD          int
 	work            int
 }
@@ -630,6 +632,7 @@ func (ri *refInterp) solve(d, nv int, frames []refFrame, q *gt, limit int) refRe
 	}
 	fr, rest := frames[0], frames[1:]
 	if fr.exitCatch {
+		ri.exitSeen[fr.depth] = true
 		r := ri.solve(d, nv, rest, q, limit)
 		if r.stop == stopRaised {
 			r.exited = append([]int{fr.depth}, r.exited...)
@@ -723,7 +726,11 @@ func (ri *refInterp) solve(d, nv int, frames []refFrame, q *gt, limit int) refRe
 		}
 		return ri.solve(d, nv2, refCat([]refFrame{{g: refMk2("=", args[2], gList(copies, gAtom("[]"))), level: l}}, rest), q, limit)
 	case f == "catch" && len(args) == 3:
+		savedSeen := ri.exitSeen[d]
+		ri.exitSeen[d] = false
 		r := ri.solve(d+1, nv, refCat([]refFrame{{g: refCall1(args[0]), level: d}, {exitCatch: true, depth: d}}, rest), q, limit)
+		seen := ri.exitSeen[d]
+		ri.exitSeen[d] = savedSeen
 		if r.stop != stopRaised {
 			return r
 		}
@@ -741,6 +748,9 @@ func (ri *refInterp) solve(d, nv int, frames []refFrame, q *gt, limit int) refRe
 			return r
 		}
 		ri.caught++
+		if seen {
+			ri.caughtAfterRedo++
+		}
 		lim := limit - len(r.answers)
 		if lim < 0 {
 			lim = 0
@@ -854,7 +864,7 @@ const (
 )
 
 func refSolveQuery(prog []*gt, query *gt, max int, iso bool) (out refOutcome) {
-	ri := &refInterp{iso: iso, maxSteps: refMaxSteps, maxRD: refMaxRD, maxSize: refMaxSize}
+	ri := &refInterp{iso: iso, maxSteps: refMaxSteps, maxRD: refMaxRD, maxSize: refMaxSize, exitSeen: map[int]bool{}}
 	out.ri = ri
 	if iso {
 		ri.prog = append(ri.prog, prog...)
